@@ -286,9 +286,13 @@ def run(rep, tier, seed, selftest):
     if files:
         with open(files[0]) as f:
             samples.append({"trace_head": [json.loads(next(f)) for _ in range(2)]})
+    # ---- private items of the SAME NAME in several modules, every file order, executed (spec/SameNames.tla)
+    from . import c12_samenames
+    sn = c12_samenames.run_part(rep, tier, selftest or tier == "thorough")
     coverage = {
-        "states": states, "transitions": transitions,
-        "traces_validated_against_impl": len(cases) + ok_runs + ok_records,
+        "states": states + sn["states"], "transitions": transitions + sn["generated"],
+        "same_names": sn,
+        "traces_validated_against_impl": len(cases) + ok_runs + ok_records + sn["cells"],
         "samples": samples,
         "evaluations": len(cases) + count + orders_run + 3 * nhist,
         "distinct_nontrivial": nontrivial + split_records,
@@ -372,6 +376,9 @@ def replay(path):
     detail = d.get("detail", {})
     print("kind:", d.get("kind"), " key:", d.get("key"))
     part = detail.get("part", "")
+    if part == "same-names":
+        from . import c12_samenames
+        return c12_samenames.replay(detail)
     if part == "modules":
         p = mu.pvh(["show-mods", json.dumps(detail["case"])])
         print(p.stdout)
